@@ -331,4 +331,28 @@ Section DomainPage.
       + apply content_normal_compress; assumption.
     - apply compressible_savable; assumption.
   Qed.
+
+  (* ANY operations of C14's plain domain written with Content::encode (any operators, any fonts selected): what is extracted
+     after compress + save + load is what extract_text makes of those operations (reals in normal form) *)
+  Theorem extract_any_written_after_compress_save_load_dom nocomp xt d fuel pid fname font ops nums :
+    savable d -> known_deep d = false -> unreferenced xt d -> content_normal fuel (d_objects d) pid ->
+    small_file xt (compress_doc deflate nocomp d) ->
+    zlib_compressor (d_objects d) ->
+    page_written decomp fuel (d_objects d) pid fname font ops -> Forall plain_ok ops ->
+    exists d' p',
+      load (so_bytes (save xt (compress_doc deflate nocomp d))) = LOk d' (xtype_of xt) /\
+      doc_page decomp content_decode fuel (d_objects d') pid = Some p' /\
+      extract_text_chunks [p'] nums = extract_text_chunks [{| p_fonts := [(fname, font)]; p_ops := map norm_pair ops |}] nums /\
+      extract_text [p'] nums = extract_text [{| p_fonts := [(fname, font)]; p_ops := map norm_pair ops |}] nums.
+  Proof.
+    intros S K U Hn Hsm Z Hw Hops.
+    pose proof (doc_page_written decomp fuel (d_objects d) pid fname font ops Hw Hops) as Hd.
+    assert (Hl : lookup (d_objects d) pid <> None) by (apply (doc_page_exists _ _ _ _ _ _ Hd); discriminate).
+    destruct (extract_same_after_compress_save_load_dom content_decode nocomp xt d fuel [pid]
+                [{| p_fonts := [(fname, font)]; p_ops := map norm_pair ops |}] nums S K U
+                (Forall_cons _ (conj Hl Hn) (Forall_nil _)) Hsm Z (Forall2_cons _ _ Hd (Forall2_nil _)))
+      as (d' & pages' & HL & HF & H1 & H2).
+    inversion HF as [|? p' ? rest Hp' Hrest]; subst. inversion Hrest; subst.
+    exists d', p'. repeat split; assumption.
+  Qed.
 End DomainPage.
